@@ -164,7 +164,13 @@ func AnalyzePaths(fn *ssa.Function, atoms []Atom) *PathStates {
 	if len(fn.Blocks) == 0 {
 		return ps
 	}
-	init := State(make([]byte, len(atoms)))
+	ib := make([]byte, len(atoms))
+	for i, a := range atoms {
+		if a.Event != nil && a.Cond == nil {
+			ib[i] = byte(F) // an event that has not happened yet
+		}
+	}
+	init := State(ib)
 	ps.in[fn.Blocks[0]] = map[State]bool{init: true}
 	work := []*ssa.BasicBlock{fn.Blocks[0]}
 	inWork := map[*ssa.BasicBlock]bool{fn.Blocks[0]: true}
